@@ -403,19 +403,78 @@ def additive_factor(t, X, Y, ls, alpha=None):
     raise ValueError(t)
 
 
-def cond_scale(spec, X, Y):
-    """Magnitude of the intermediates of the Newton-Girard recursion of an additive kernel (power sums p_1^n / n!):
-    the size against which its rounding error is to be judged.  None for other kernels."""
-    from math import factorial
-
+def cond_matrix(spec, X, Y):
+    """Per pair (i, j): magnitude of the intermediates of the Newton-Girard recursion of an additive kernel,
+    sum_n |scale_n| (1/n) sum_k e_{n-1-k}(|k0|) p_{k+1}(|k0|)  (>= |K_ij|): the size against which the rounding error
+    of that kernel entry has to be judged.  None for other kernels."""
     t = spec["t"]
     if t not in ADDITIVE:
         return None
     if Y is None:
         Y = X
-    k0 = np.abs(additive_factor(t, X, Y, _arr(spec["ls"]), spec.get("alpha")))
-    P = float(np.sum(np.max(k0, axis=(0, 1)))) if k0.size else 0.0
-    return sum(abs(float(s)) * P**n / factorial(n) for n, s in enumerate(spec["scale"]))
+    v = np.abs(additive_factor(t, X, Y, _arr(spec["ls"]), spec.get("alpha")))
+    order = spec["order"]
+    e = esp(v, order)
+    p = [None] + [np.sum(v**k, axis=-1) for k in range(1, order + 1)]
+    out = abs(float(spec["scale"][0])) * np.ones(v.shape[:2])
+    for n in range(1, order + 1):
+        acc = np.zeros(v.shape[:2])
+        for k in range(n):
+            acc = acc + e[n - 1 - k] * p[k + 1]
+        out = out + abs(float(spec["scale"][n])) * acc / n
+    return out
+
+
+def cond_scale(spec, X, Y):
+    c = cond_matrix(spec, X, Y)
+    return None if c is None else float(np.max(c))
+
+
+def error_model(spec, A, B=None):
+    """(|K|, R) for K = kernel(A, B) (B=None: the Y=None call): R_ij is the magnitude that rounding errors of K_ij
+    scale with -- |K_ij| itself for plain kernels, the Newton-Girard intermediates for additive ones, propagated
+    through sums, products, powers and the index wrappers.  Used as the `scale` of rounding-level identities and
+    as the noise floor of finite differences (first-order forward error model, no claim of rigour)."""
+    t = spec["t"]
+    if t in ("Sum", "Prod"):
+        (k1, r1), (k2, r2) = error_model(spec["l"], A, B), error_model(spec["r"], A, B)
+        if t == "Sum":
+            return k1 + k2, r1 + r2
+        return k1 * k2, r1 * k2 + r2 * k1
+    if t == "Exp":
+        k1, r1 = error_model(spec["k"], A, B)
+        n = spec["n"]
+        return k1**n, n * k1 ** (n - 1) * r1
+    if t == "Transform":
+        return error_model(spec["k"], transform_apply(spec, A), transform_apply(spec, B))
+    if t == "AD":
+        d = list(spec["dims"])
+        return error_model(spec["k"], A[:, d], None if B is None else B[:, d])
+    if t == "SpinSymK":
+        u, d = list(spec["up"]), list(spec["down"])
+        ku, ru = error_model(spec["k"], A[:, u], None if B is None else B[:, u])
+        kd, rd = error_model(spec["k"], A[:, d], None if B is None else B[:, d])
+        return ku + kd, ru + rd
+    if t in ("Subset", "PartialRBF", "PartialARBF"):
+        c = selected_columns(spec, A.shape[1])
+        return error_model(base_spec(spec), A[:, c], None if B is None else B[:, c])
+    if t == "SpinSym":
+        a, b = resolve(spec["a"], A.shape[1]), resolve(spec["b"], A.shape[1])
+        As = np.vstack((A[:, a], A[:, b]))
+        Bs = None if B is None else np.vstack((B[:, a], B[:, b]))
+        k, r = error_model(base_spec(spec), As, Bs)
+        na, nb = len(A), len(A) if B is None else len(B)
+
+        def fold(M):
+            M = M[:na] + M[na:]
+            return M[:, :nb] + M[:, nb:]
+
+        return fold(k), fold(r)
+    K = np.abs(np.asarray(build(spec)(A) if B is None else build(spec)(A, B), dtype=float))
+    if K.ndim == 0:
+        K = K * np.ones((len(A), len(A) if B is None else len(B)))
+    c = cond_matrix(spec, A, B)
+    return K, (K if c is None else np.maximum(K, c))
 
 
 def additive_reference(spec, X, Y):
